@@ -525,6 +525,63 @@ fn replay_boundary(v: &Value) -> Result<CaseResult, String> {
 
 // ------------------------------------------------------------------------------------------
 
+// ------------------------------------------------------------------------------------------
+// formatting while the thread is being torn down
+
+#[derive(Debug, Clone, Serialize, Deserialize)]
+pub struct TeardownCase {
+    n: u64,
+    fbits: u64,
+    secs: u64,
+    /// the wrappers are used in the thread before it ends (so that whatever they keep per thread exists and
+    /// is destroyed before the value below)
+    warm: bool,
+}
+
+fn all_wrappers(n: u64, f: f64, secs: u64) -> String {
+    let d = Duration::from_secs(secs);
+    format!("{}|{}|{:.3}|{}|{}|{}|{}|{:#}|{}", HumanCount(n), HumanFloatCount(f), HumanFloatCount(f), HumanBytes(n), BinaryBytes(n), DecimalBytes(n), HumanDuration(d), HumanDuration(d), FormattedDuration(d))
+}
+
+struct FormatsWhenDropped(u64, f64, u64, std::sync::mpsc::Sender<Result<String, String>>);
+
+impl Drop for FormatsWhenDropped {
+    fn drop(&mut self) {
+        let (n, f, secs) = (self.0, self.1, self.2);
+        let _ = self.3.send(catch(move || all_wrappers(n, f, secs)));
+    }
+}
+
+thread_local! {
+    static AT_EXIT: std::cell::RefCell<Option<FormatsWhenDropped>> = const { std::cell::RefCell::new(None) };
+}
+
+/// "never panic": also when a value is formatted from the destructor of a thread-local while the thread
+/// ends (a progress bar kept in a thread_local! that paints its last frame there) - after anything the
+/// wrappers may keep per thread has been destroyed.
+fn run_teardown(c: &TeardownCase) -> CaseResult {
+    let f = f64::from_bits(c.fbits);
+    let want = all_wrappers(c.n, f, c.secs);
+    let (tx, rx) = std::sync::mpsc::channel();
+    let (n, secs, warm) = (c.n, c.secs, c.warm);
+    let h = std::thread::spawn(move || {
+        // registered first, destroyed last
+        AT_EXIT.with(|slot| *slot.borrow_mut() = Some(FormatsWhenDropped(n, f, secs, tx)));
+        if warm {
+            let _ = all_wrappers(n ^ 1, f, secs);
+        }
+    });
+    let joined = h.join();
+    let got = rx.recv_timeout(Duration::from_secs(10)).map_err(|_| Fail::new("harness", "the thread-local destructor did not report".to_string()))?;
+    ensure!(joined.is_ok(), "panic", "the thread panicked");
+    let got = got.map_err(|p| Fail::new("panic", format!("formatting {} / {f:?} / {} s from a thread-local destructor at thread exit panicked: {p}", c.n, c.secs)))?;
+    ensure!(got == want, "teardown_differs", "formatted at thread exit: {got:?}, in a running thread: {want:?}");
+    let mut v = Verdict::default();
+    v.nontrivial = c.warm;
+    v.label_if(c.warm, "wrappers_used_in_the_thread_before_it_ended");
+    Ok(v)
+}
+
 pub fn property() -> Property {
     let w = default_workers();
     Property {
@@ -586,6 +643,17 @@ pub fn property() -> Property {
                 essential: &["two_units", "above_seconds", "days"],
                 workers: w,
                 decode: Some(|u| DurCase { a_secs: u.u64() >> u.n(63), a_nanos: u.u32() % 1_000_000_000, b_secs: u.u64() >> u.n(63), b_nanos: u.u32() % 1_000_000_000 }),
+            }),
+            Box::new(Gen::<TeardownCase> {
+                name: "thread_exit",
+                rule: "all wrappers formatted from the destructor of a thread-local value while its thread ends (after the wrappers were used in that thread, so that anything they keep per thread is destroyed first): no panic, same text as in a running thread; non-trivial = the wrappers were used in the thread before",
+                strategy: |_| (any::<u64>(), any::<u64>(), 0u64..400_000_000, proptest::bool::weighted(0.8)).prop_map(|(n, fbits, secs, warm)| TeardownCase { n, fbits, secs, warm }).boxed(),
+                cases: |t| t.pick(100, 5_000),
+                run: run_teardown,
+                signature: no_signature,
+                essential: &["wrappers_used_in_the_thread_before_it_ended"],
+                workers: w,
+                decode: None,
             }),
             Box::new(Enumerated {
                 name: "boundaries",
